@@ -83,7 +83,7 @@ def cache_key(tier, seed):
     for p in (C.VH, C.DRIVER):
         st = os.stat(p)
         h.update(("%s:%d:%d" % (p, st.st_mtime_ns, st.st_size)).encode())
-    h.update(("%s:%s" % (tier, seed)).encode())
+    h.update(("v3:%s:%s" % (tier, seed)).encode())
     return h.hexdigest()[:16]
 
 
@@ -128,7 +128,22 @@ def run_differential(tier, seed):
                     if li != lm:
                         dis.append({"file": c, "line": ln, "meta": le.strip(),
                                     "keys": sorted(diff_keys(lm, li))})
-        s = {"cases": n, "disagreements": len(dis), "dis": dis[:2000], "hist": hist, "panics": panics,
+        # tie (B): the election-layer acceptor over the P-level event traces of the same runs
+        pn, pfirst, pnd = C.run_model_on_shards(d, "pel-sim")
+        prej = []
+        for c in C.shard_files(d, "pel-sim", "cases"):
+            m = c.replace(".cases.", ".model.")
+            with open(m) as fm:
+                for ln, lm in enumerate(fm, 1):
+                    if not lm.startswith("1 "):
+                        prej.append({"file": c, "line": ln, "answer": lm.strip()})
+        pev = 0
+        for c in C.shard_files(d, "pel-sim", "impl"):
+            with open(c) as f:
+                for l in f:
+                    pev += int(l.split()[1])
+        s = {"pel_traces": pn, "pel_events": pev, "pel_rejects": prej[:200],
+             "cases": n, "disagreements": len(dis), "dis": dis[:2000], "hist": hist, "panics": panics,
              "classes": len(classes), "class_hist": dict(classes.most_common(12)), "dir": d}
         json.dump(s, open(summ, "w"))
         return s, d
@@ -173,7 +188,8 @@ def check(spec, tier, seed, replay=None):
         broken.append("extracted model does not build: " + out[-800:])
     C.log("[%s] building harness against /repo working tree" % pid)
     okh, out = C.build_harness()
-    summ = {"cases": 0, "disagreements": 0, "dis": [], "hist": {}, "panics": {}, "classes": 0, "class_hist": {}}
+    summ = {"cases": 0, "disagreements": 0, "dis": [], "hist": {}, "panics": {}, "classes": 0, "class_hist": {},
+            "pel_traces": 0, "pel_events": 0, "pel_rejects": []}
     mine = []
     n_coq = 0
     rundir = None
@@ -189,6 +205,14 @@ def check(spec, tier, seed, replay=None):
                 d0 = mine[0]
                 broken.append("correspondence: model M/Raft.v+RawNode.v and implementation disagree on %d of %d calls in this property's projection %s; first: %s differs in %s"
                               % (len(mine), summ["cases"], sorted(proj), d0["meta"], d0["keys"]))
+            if spec.get("acceptor") and summ.get("pel_rejects"):
+                r0 = summ["pel_rejects"][0]
+                broken.append("refinement: %d of %d simulated executions are NOT executions of the abstract protocol P (acceptor P/ElectionAccept.v); first: %s line %d answer '%s' (0 <event index> <reason 1 pre / 2 guard / 3 post> <event code>)"
+                              % (len(summ["pel_rejects"]), summ["pel_traces"], r0["file"], r0["line"], r0["answer"]))
+            if spec.get("acceptor"):
+                k2, prob2 = C.incoq_sample(rundir, "pel-sim", "run_pelection", "Run.RunPElection", 3, rng, maxlen=40000)
+                if prob2:
+                    broken.append("refinement (vm_compute): " + prob2)
             k, prob = C.incoq_sample(rundir, "node-sim", "run_node", "Run.RunNode", spec["incoq"][tier], rng, maxlen=60000)
             n_coq = k
             if prob and not mine:
@@ -243,6 +267,9 @@ def check(spec, tier, seed, replay=None):
             "programs": max(1, summ["cases"]), "disagreements_checked": len(mine),
             "traces_validated_against_impl": summ["cases"],
             "disagreements_any_projection": summ["disagreements"],
+            "p_traces_accepted": (summ.get("pel_traces", 0) - len(summ.get("pel_rejects", []))) if spec.get("acceptor") else None,
+            "p_traces_total": summ.get("pel_traces", 0) if spec.get("acceptor") else None,
+            "p_events": summ.get("pel_events", 0) if spec.get("acceptor") else None,
             "incoq_vm_compute_cases": n_coq,
             "call_histogram": summ["hist"], "class_histogram_top": summ["class_hist"],
             "implementation_panics_by_location": summ["panics"],
